@@ -14,6 +14,9 @@
 3. code -> spec: driver-chosen random histories are executed and recorded on the real objects; TLC
    (ConfigCache_trace.tla) follows each recorded history through the spec's actions and compares every recorded
    result and state; a rejected step is triaged with the from-scratch oracle.
+   The model covers options whose resolved value is DERIVED from another option (repeatInterval -> isRepeat, which the
+   description also stores; interpreter -> expandArguments) with mutators of the source option through every call path, and
+   a platform that does not exist initially and is created on demand by the platform-variable setters.
 4. self-test: three in-process mutations of the anchored code (a dropped clear(), a cache hit without deep copy, a
    cache that ignores `raw`) must each be reported.
 """
@@ -545,11 +548,11 @@ def design_runs(chk, tier):
     cached = ("full", "lenient", "raw")
     jobs = []   # (label, module, cfg, expect_violation, workers, coverage)
     if tier == "quick":
-        jobs.append(("over-hit, T2/T5", "ConfigCache_over", write_cfg("CC_d1_q", vals=("1",), templates=("T2", "T5"), flavours=cached, **api), None, 8, True))
+        jobs.append(("over-hit, T2/T5", "ConfigCache_over", write_cfg("CC_d1_q", vals=("1",), templates=("T2", "T5"), flavours=cached, **api), None, 8, False))
         jobs.append(("exact, T4", "ConfigCache_exact", write_cfg("CC_d2_q", vals=("1",), templates=("T4",), flavours=ALL_FLAVOURS, **api), None, 8, False))
         jobs.append(("two stages, no templates", "ConfigCache_twostage", write_cfg("CC_d3_q", vals=("1",), templates=(), flavours=cached, **api), None, 8, False))
     else:
-        jobs.append(("over-hit, all templates", "ConfigCache_over", write_cfg("CC_d1_t", vals=("1",), **api), None, 16, True))
+        jobs.append(("over-hit, all templates", "ConfigCache_over", write_cfg("CC_d1_t", vals=("1",), templates=("T1", "T2", "T3", "T4", "T5"), **api), None, 16, False))
         jobs.append(("exact, two values, T2", "ConfigCache_exact", write_cfg("CC_d2_t", vals=("1", "2"), templates=("T2",), flavours=cached, **api), None, 16, False))
         jobs.append(("two stages, T2/T5", "ConfigCache_twostage", write_cfg("CC_d3_t", vals=("1",), templates=("T2", "T5"), flavours=cached, **api), None, 16, False))
     # derived options (repeatInterval -> isRepeat with its stored copy, interpreter -> expandArguments): every call path of the
@@ -557,12 +560,12 @@ def design_runs(chk, tier):
     noargs = dict(argvals=(), npvals=())
     if tier == "quick":
         jobs.append(("derived options", "ConfigCache_exact", write_cfg("CC_d4_q", vals=(), templates=("T6",), flavours=("full", "raw", "noinj", "prim"),
-                                                                        **noargs, **DERIVED, **api), None, 8, False))
+                                                                        **noargs, **DERIVED, **api), None, 8, True))
         jobs.append(("platform created on demand", "ConfigCache_exact", write_cfg("CC_d5_q", vals=("1",), templates=(), flavours=("full", "nodef"),
                                                                                    plats=P3, **noargs, **api), None, 8, False))
     else:
         jobs.append(("derived options", "ConfigCache_over", write_cfg("CC_d4_t", vals=("1",), templates=("T6", "T2"), flavours=ALL_FLAVOURS,
-                                                                       plats=("default",), **noargs, **DERIVED, **api), None, 16, False))
+                                                                       plats=("default",), **noargs, **DERIVED, **api), None, 16, True))
         jobs.append(("platform created on demand, two stages", "ConfigCache_twostage", write_cfg("CC_d5_t", vals=("1",), templates=(), flavours=("full", "nodef", "raw"),
                                                                                                plats=P3, **noargs, **api), None, 16, False))
     # expected-to-fail models: the deviations of the code, and the vacuity witnesses
